@@ -268,36 +268,44 @@ def leaf_ok(t):
         return False
     if {a for a, _ in ivs0} & set(names):
         return False
-    if len({a for a, _ in ivs0}) != len(ivs0):
-        return False
-    if t[0] == "PP" and not (t[1][2] == "n" and str(t[1][3]) == "0" and not t[1][4]):
-        return False
     return True
 
 
-def well_scoped(e):
-    """same definition as `Y0.WellScoped` (lean/Y0/Lemmas/SemCanon.lean):
-    every leaf is `leaf_ok`; no Q-factor; Sum ranges are non-empty plain variables none of which occurs `+`-starred in
-    event position inside the summand."""
+def range_names(e):
+    out = set()
+    for t in subterms(e):
+        if isinstance(t, list) and t[0] == "sum":
+            out |= {int(v[1]) for v in t[1]}
+    return out
+
+
+def _ws(e, S):
     if not isinstance(e, list):
         return e in ("one", "zero")
     tag = e[0]
     if tag in ("P", "PP"):
-        return leaf_ok(e)
+        return leaf_ok(e) and not ({int(v[1]) for v in event_vars(e) if v[2] == "p"} & S)
     if tag == "Q":
         return False
     if tag == "prod":
-        return all(well_scoped(x) for x in e[1:])
+        return all(_ws(x, S) for x in e[1:])
     if tag == "frac":
-        return well_scoped(e[1]) and well_scoped(e[2])
+        return _ws(e[1], S) and _ws(e[2], S)
     if tag == "sum":
         rs = e[1]
         if not rs or any(not (v[2] == "n" and str(v[3]) == "0" and not v[4]) for v in rs):
             return False
-        if {int(v[1]) for v in rs} & plus_event_names(e[2]):
+        if len({int(v[1]) for v in rs}) != len(rs):
             return False
-        return well_scoped(e[2])
+        return _ws(e[2], S)
     return False
+
+
+def well_scoped(e):
+    """same definition as `Y0.WellScoped` (lean/Y0/Lemmas/SemScope.lean):
+    every leaf is `leaf_ok`; no Q-factor; Sum ranges are non-empty plain variables; a name that is a range of some Sum of
+    the expression never occurs `+`-starred in event position."""
+    return _ws(e, range_names(e))
 
 
 def contains_zero(e):
